@@ -34,7 +34,8 @@ pub fn gen_fft_case_len(ctx: &mut Ctx, max_log: usize, wide: bool) -> FftCase {
     let pos = if ctx.rng.chance(1, 2) { 0 } else { ctx.rng.below(3) * size + if ctx.rng.chance(1, 4) { ctx.rng.below(5) } else { 0 } };
     let tail = ctx.rng.below(3);
     let count = pos + size + tail;
-    let len64 = if wide { ctx.rng.range(4, 9) } else { ctx.rng.range(1, 3) };
+    // wide: 4 .. 9 blocks, one time in six 64 .. 66 blocks (4 KiB and more per shard)
+    let len64 = if wide { if ctx.rng.chance(1, 6) { ctx.rng.range(64, 66) } else { ctx.rng.range(4, 9) } } else { ctx.rng.range(1, 3) };
     let trunc = match ctx.rng.below(5) {
         0 => size,
         1 => 1.min(size),
